@@ -43,6 +43,24 @@ fn ref_tick(pre: &RefState, set: &[(Cand, Program)]) -> RefTick {
     let mut accepted = Vec::new();
     let mut blocked_by: Vec<Vec<u32>> = Vec::new();
     let mut acc_items: Vec<(usize, Vec<rules::FpItem>, u8, u8)> = Vec::new(); // (entry idx, items, scope, instance)
+    // attachment slots a candidate declares written, resolved to (instance, owner)
+    let writes = |items: &[rules::FpItem], w: u8, scope: u8| -> Vec<world::RefSlot> {
+        items
+            .iter()
+            .filter_map(|it| match *it {
+                rules::FpItem::AWrite(rules::RefSlotOrScope::Scope) => Some(world::RefSlot::Node(w, scope)),
+                rules::FpItem::AWrite(rules::RefSlotOrScope::Node(n)) => Some(world::RefSlot::Node(w, n)),
+                rules::FpItem::AWrite(rules::RefSlotOrScope::Edge(e)) => Some(world::RefSlot::Edge(w, e)),
+                _ => None,
+            })
+            .collect()
+    };
+    // a rewrite inside a descended instance READS every portal slot of its descent chain (the
+    // engine adds them): it conflicts with any candidate that writes one of those slots
+    let chain_conflict = |reader_w: u8, writer_items: &[rules::FpItem], writer_w: u8, writer_scope: u8| -> bool {
+        let chain = rules::tick::descent_slots(pre, reader_w);
+        writes(writer_items, writer_w, writer_scope).iter().any(|s| chain.contains(s))
+    };
     let mut ops = Vec::new();
     for (entry, &i) in order.iter().enumerate() {
         let (c, p) = &set[i];
@@ -50,7 +68,11 @@ fn ref_tick(pre: &RefState, set: &[(Cand, Program)]) -> RefTick {
         let blockers: Vec<u32> = acc_items
             .iter()
             // conflicts exist only within one instance (footprints are instance-scoped)
-            .filter(|(_, it, sc, w)| *w == c.1 && ref_conflict(&items, c.2, it, *sc))
+            .filter(|(_, it, sc, w)| {
+                (*w == c.1 && ref_conflict(&items, c.2, it, *sc))
+                    || chain_conflict(c.1, it, *w, *sc)
+                    || chain_conflict(*w, &items, c.1, c.2)
+            })
             .map(|(e, _, _, _)| *e as u32)
             .collect();
         if blockers.is_empty() {
